@@ -283,6 +283,14 @@ pub(crate) struct DirectoryInfo {
     pub(crate) cluster: ClusterId,
 }
 
+#[cfg(feature = "verif-hooks")]
+impl DirEntry {
+    /// Verification hook H1: public forwarder to the crate-private serialiser.
+    pub fn verif_serialize(&self, fat32: bool) -> [u8; OnDiskDirEntry::LEN] {
+        self.serialize(if fat32 { FatType::Fat32 } else { FatType::Fat16 })
+    }
+}
+
 impl DirEntry {
     pub(crate) fn serialize(&self, fat_type: FatType) -> [u8; OnDiskDirEntry::LEN] {
         let mut data = [0u8; OnDiskDirEntry::LEN];
